@@ -909,11 +909,11 @@ def isBareScalar : FieldDecl → Bool
 
 /-- the wrapper guarantee at ANY nesting depth: whatever `deserialize_single_field(f, v, name)`
     raises begins with `name` — for every declaration (collections of collections, positional
-    items, maps of arrays, inline structures, AnyOf / OneOf / AllOf / NotField, Enum, …), every
-    document value and every scratch state — EXCEPT a class reference given a dict (the nested
-    structure's error passes through unchanged) and the bare scalars (their own `_name`) -/
+    items, maps of arrays, nested and inline structures, AnyOf / OneOf / AllOf / NotField, Enum, …),
+    every document value and every scratch state — EXCEPT the bare scalars (their own `_name`).
+    Since /repo 8de2ad2 a class reference given a dict is no exception any more. -/
 theorem dHead_starts (O : Oracles) (opts : DeserOpts) (f : FieldDecl) (name : Text) (v : PyVal)
-    (hs : isBareScalar f = false) (hc : (isClassRef f && isDictVal v) = false) :
+    (hs : isBareScalar f = false) :
     startsWith name (dHead O opts f name v) = true := by
   have hhom : ∀ (ok : PyVal → Bool) (g : Text → PyVal → Text) (xs : List PyVal) (h : Text),
       dHeadHomog ok g name xs = some h → startsWith name h = true := by
@@ -950,7 +950,7 @@ theorem dHead_starts (O : Oracles) (opts : DeserOpts) (f : FieldDecl) (name : Te
     · simp only [hi]
       cases v <;> first
         | exact c18_startsWith_append _ _
-        | (simp [isClassRef, isDictVal, hi] at hc)
+        | exact c18_startsWith_self _
   case enumLit => exact c18_startsWith_self _
   case enumCls => exact c18_startsWith_self _
   all_goals exact c18_startsWith_append _ _
@@ -960,13 +960,12 @@ theorem isFlat_not_classRef (f : FieldDecl) (h : isFlatDecl f = true) : isClassR
   cases f <;> simp_all [isFlatDecl, isClassRef, isScalarDecl]
 
 /-- DESERIALIZATION, every declaration, any depth: every phase-one rejection site is `named` and
-    its text begins with ITS OWN top-level field's name — except exactly the site of the open
-    finding `no-path:nested-structure:deser-classref` (a top-level class reference given a dict),
-    which the model marks `nested` -/
+    its text begins with ITS OWN top-level field's name — with NO exception since /repo 8de2ad2
+    (before, a top-level class reference given a dict was the site of the finding
+    `no-path:nested-structure:deser-classref`) -/
 theorem p1SiteD_names_own_field (O : Oracles) (opts : DeserOpts) (ign : Bool)
     (scr : List (Option String)) (name : String) (f : FieldDecl) (v : PyVal) (s : P1Site)
-    (h : p1SiteD O opts ign scr name f v = some s)
-    (hx : (isClassRef f && isDictVal v) = false) :
+    (h : p1SiteD O opts ign scr name f v = some s) :
     s.kind = .named ∧ s.top = name ∧ s.namesOwnField = true := by
   unfold p1SiteD at h
   by_cases hf : isFlatDecl f = true
@@ -976,44 +975,19 @@ theorem p1SiteD_names_own_field (O : Oracles) (opts : DeserOpts) (ign : Bool)
     cases hd : deser O opts ign f v with
     | ok y => simp [hd] at h
     | error e =>
-      simp only [hd] at h
-      rw [hx] at h
-      simp only [Bool.false_eq_true, if_false, Option.some.injEq] at h
+      simp only [hd, Bool.false_eq_true, if_false, Option.some.injEq] at h
       subst h
       refine ⟨rfl, rfl, ?_⟩
       simp only [P1Site.namesOwnField]
       have hbare : isBareScalar f = false := by
         cases f <;> simp_all [isBareScalar, isFlatDecl, isScalarDecl, deser]
-      exact dHead_starts O opts f name.toList v hbare hx
+      exact dHead_starts O opts f name.toList v hbare
 
-/-- … and the excluded site is exactly where the model puts the finding: kind `nested`, no head -/
-theorem p1SiteD_nested_iff (O : Oracles) (opts : DeserOpts) (ign : Bool)
+/-- no site is of the former `nested` kind -/
+theorem p1SiteD_never_nested (O : Oracles) (opts : DeserOpts) (ign : Bool)
     (scr : List (Option String)) (name : String) (f : FieldDecl) (v : PyVal) (s : P1Site)
-    (h : p1SiteD O opts ign scr name f v = some s) :
-    s.kind = .nested ↔ (isClassRef f && isDictVal v) = true := by
-  constructor
-  · intro hk
-    cases hx : (isClassRef f && isDictVal v) with
-    | true => rfl
-    | false =>
-      have := (p1SiteD_names_own_field O opts ign scr name f v s h hx).1
-      rw [this] at hk
-      exact absurd hk (by decide)
-  · intro hx
-    unfold p1SiteD at h
-    have hnf : isFlatDecl f = false := by
-      cases hf : isFlatDecl f with
-      | false => rfl
-      | true => simp [isFlat_not_classRef f hf] at hx
-    simp only [hnf, Bool.false_eq_true, if_false] at h
-    cases hd : deser O opts ign f v with
-    | ok y => simp [hd] at h
-    | error e =>
-      simp only [hd] at h
-      rw [hx] at h
-      simp only [if_true, Option.some.injEq] at h
-      subst h
-      rfl
+    (h : p1SiteD O opts ign scr name f v = some s) : s.kind ≠ .nested := by
+  rw [(p1SiteD_names_own_field O opts ign scr name f v s h).1]; decide
 
 /-- a site exists exactly for the document values `deserialize_single_field` rejects (`deser`,
     Sem/Deser.lean, for the non-flat declarations; `p1Rejects` for the flat ones) -/
@@ -1030,15 +1004,15 @@ theorem p1SiteD_isSome (O : Oracles) (opts : DeserOpts) (ign : Bool)
     | ok y => simp [isOk]
     | error e =>
       simp only [isOk]
-      cases (isClassRef f && isDictVal v) <;> rfl
+      rfl
 
-/-- every phase-one site of a document, for a class of ANY declarations: it belongs to a declared
-    field and either begins with that field's own name or is the `nested` site of a class reference -/
+/-- every phase-one site of a document, for a class of ANY declarations (collections at any depth,
+    nested and inline structures, multi-field wrappers, …): it belongs to a declared field and its
+    text begins with that field's own name -/
 theorem p1SitesD_name_fields (O : Oracles) (opts : DeserOpts) (ign : Bool)
     (scr : List (String × List (Option String))) (doc : List (String × PyVal))
     (fields : List (String × FieldDecl)) (s : P1Site) (h : s ∈ p1SitesD O opts ign scr doc fields) :
-    ∃ nf ∈ fields, s.top = nf.1 ∧
-      ((s.kind = .named ∧ s.namesOwnField = true) ∨ (s.kind = .nested ∧ isClassRef nf.2 = true)) := by
+    ∃ nf ∈ fields, s.top = nf.1 ∧ s.kind = .named ∧ s.namesOwnField = true := by
   simp only [p1SitesD, List.mem_filterMap] at h
   obtain ⟨nf, hnf, hs⟩ := h
   refine ⟨nf, hnf, ?_⟩
@@ -1048,38 +1022,8 @@ theorem p1SitesD_name_fields (O : Oracles) (opts : DeserOpts) (ign : Bool)
     simp only [hl] at hs
     split at hs
     · simp at hs
-    · cases hx : (isClassRef nf.2 && isDictVal v) with
-      | false =>
-        have := p1SiteD_names_own_field O opts ign _ nf.1 nf.2 v s hs hx
-        exact ⟨this.2.1, Or.inl ⟨this.1, this.2.2⟩⟩
-      | true =>
-        have hk := (p1SiteD_nested_iff O opts ign _ nf.1 nf.2 v s hs).2 hx
-        simp only [Bool.and_eq_true] at hx
-        refine ⟨?_, Or.inr ⟨hk, hx.1⟩⟩
-        unfold p1SiteD at hs
-        have hnf' : isFlatDecl nf.2 = false := by
-          cases hf : isFlatDecl nf.2 with
-          | false => rfl
-          | true => simp [isFlat_not_classRef nf.2 hf] at hx
-        simp only [hnf', Bool.false_eq_true, if_false] at hs
-        cases hd : deser O opts ign nf.2 v with
-        | ok y => simp [hd] at hs
-        | error e =>
-          simp only [hd] at hs
-          split at hs <;> (simp only [Option.some.injEq] at hs; subst hs; rfl)
-
-/-- … in particular: a class without class-reference fields (collections at any depth, inline
-    structures, multi-field wrappers, …) has every phase-one rejection named by its own field -/
-theorem p1SitesD_all_named (O : Oracles) (opts : DeserOpts) (ign : Bool)
-    (scr : List (String × List (Option String))) (doc : List (String × PyVal))
-    (fields : List (String × FieldDecl)) (hno : ∀ nf ∈ fields, isClassRef nf.2 = false)
-    (s : P1Site) (h : s ∈ p1SitesD O opts ign scr doc fields) :
-    ∃ nf ∈ fields, s.top = nf.1 ∧ s.kind = .named ∧ s.namesOwnField = true := by
-  obtain ⟨nf, hnf, htop, hk⟩ := p1SitesD_name_fields O opts ign scr doc fields s h
-  refine ⟨nf, hnf, htop, ?_⟩
-  cases hk with
-  | inl hk => exact hk
-  | inr hk => rw [hno nf hnf] at hk; exact absurd hk.2 (by decide)
+    · have := p1SiteD_names_own_field O opts ign _ nf.1 nf.2 v s hs
+      exact ⟨this.2.1, this.1, this.2.2⟩
 
 /-! ### the path through nested collections (constructor) -/
 
@@ -1159,8 +1103,8 @@ theorem deep_path_examples :
   decide
 
 /-- the same positions through deserialization (heads every message must begin with), the
-    positional and Map wrappers, and the site of the finding: a top-level class reference given a
-    dict is `nested` (no head); given a non-dict, and inside a collection, it is named -/
+    positional and Map wrappers, and the former site of the finding (fixed by /repo 8de2ad2): a
+    top-level class reference given a dict is named `inner…` like every other site -/
 theorem deep_deser_head_examples :
     let O : Oracles := exOracles
     let opts : DeserOpts := {}
@@ -1175,7 +1119,7 @@ theorem deep_deser_head_examples :
     dHead O opts (.mapOf str (arr (.integer {})) {}) "ma".toList (.dict [(.str "a", .list [.int 1, .str "x"])])
       = "ma_1".toList ∧
     dHead O opts (arr inner) "arr".toList (.list [.dict [(.str "x", .int 1)], badInner]) = "arr_1".toList ∧
-    p1SiteD O opts false [] "inner" inner badInner = some ⟨"inner", .nested, none, .typeErr⟩ ∧
+    p1SiteD O opts false [] "inner" inner badInner = some ⟨"inner", .named, some "inner".toList, .typeErr⟩ ∧
     p1SiteD O opts false [] "inner" inner (.int 5) =
       some ⟨"inner", .named, some "inner: Expected a dictionary; Got ".toList, .typeErr⟩ ∧
     p1SiteD O opts false [] "arr" (arr inner) (.list [badInner]) =
@@ -1438,7 +1382,7 @@ theorem locate_sound (O : Oracles) : ∀ (f : FieldDecl) (v : PyVal),
         obtain ⟨g, w, hr, hw⟩ := locate_sound O vf x hx.1
         rw [hx.2]
         exact ⟨g, w, Reaches.mapVal hm hr, hw⟩
-  | .struct c fields defaults, v, h => points_here O _ v _ h (by simp only [locate])
+  | .struct c fields defaults, v, h => points_here O _ v _ h (by simp only [locate]; split <;> rfl)
   | .anyOf fs, v, h => points_here O _ v _ h (by simp only [locate])
   | .oneOf fs, v, h => points_here O _ v _ h (by simp only [locate])
   | .allOf fs, v, h => points_here O _ v _ h (by simp only [locate])
@@ -1933,21 +1877,8 @@ def ctorOnlyInvalid (O : Oracles) (opts : DeserOpts) (ign : Bool) (doc : List (S
 
 theorem p1SiteD_top (O : Oracles) (opts : DeserOpts) (ign : Bool) (scr : List (Option String))
     (name : String) (f : FieldDecl) (v : PyVal) (s : P1Site) (h : p1SiteD O opts ign scr name f v = some s) :
-    s.top = name := by
-  cases hx : (isClassRef f && isDictVal v) with
-  | false => exact (p1SiteD_names_own_field O opts ign scr name f v s h hx).2.1
-  | true =>
-    unfold p1SiteD at h
-    have hnf : isFlatDecl f = false := by
-      cases hf : isFlatDecl f with
-      | false => rfl
-      | true => simp [isFlat_not_classRef f hf] at hx
-    simp only [hnf, Bool.false_eq_true, if_false] at h
-    cases hd : deser O opts ign f v with
-    | ok y => simp [hd] at h
-    | error e =>
-      simp only [hd] at h
-      split at h <;> (simp only [Option.some.injEq] at h; subst h; rfl)
+    s.top = name :=
+  (p1SiteD_names_own_field O opts ign scr name f v s h).2.1
 
 /-- SOUND at any depth: every field collect-all deserialization reports from its first phase is an
     invalid supplied field (for classes without flat fields the two phase-one models coincide by
